@@ -701,6 +701,12 @@ pub fn attribute(v: &FrameViolation) -> Vec<&'static str> {
             _ => vec![],
         }
     } else {
+        match (v.rule, v.class) {
+            // a metric that cannot fit was not written in its own emit: it is now sitting in a buffer it does not fit
+            // into (C05: "sent alone"), it was not written when it had to be (C19), and C06's "oversize in its own emit"
+            ("F2", "oversize-not-written") => return vec!["C06", "C05", "C19"],
+            _ => {}
+        }
         match v.rule {
             "F1" => vec!["C05"],
             "F2" => vec!["C06"],
